@@ -565,6 +565,16 @@ class ACCLoopDirective(ACCRegionDirective):
                 f"but this Node has the following children: "
                 f"{[type(child).__name__ for child in self.dir_body]}")
 
+        # The body of the loop is within a compute construct (or an 'acc
+        # routine') and so cannot contain data-movement directives.
+        data_dirs = self.walk((ACCDataDirective, ACCEnterDataDirective,
+                               ACCUpdateDirective))
+        if data_dirs:
+            raise GenerationError(
+                f"An OpenACC loop cannot contain OpenACC data, enter data or "
+                f"update directives but found "
+                f"{[type(node).__name__ for node in data_dirs]}.")
+
         super().validate_global_constraints()
 
     def gen_code(self, parent):
